@@ -164,7 +164,7 @@ func checkC10(c *Ctx) {
 	// ---- C10.add
 	if ad := fn("Add"); ad != nil {
 		var digits []int64
-		if c.Tier == "thorough" {
+		if c10Exhaustive(c) {
 			for v := int64(0); v < 256; v++ {
 				digits = append(digits, v)
 			}
@@ -219,6 +219,15 @@ func checkC10(c *Ctx) {
 		c.Oblige("C10.add", ShortName(ad), c.Prog.FuncPos(ad), bad == "", bad)
 		c.Saw("add_cases", fmt.Sprintf("%d", n))
 	}
+}
+
+// c10Exhaustive: the exhaustive enumerations of the thorough tier run in the
+// linux configurations with the tag (one per word size: amd64 and 386); the
+// other configurations of the tier analyse the same files of package expreval
+// (it has no tagged or OS-specific file) with the same word sizes and repeat
+// the quick sets.
+func c10Exhaustive(c *Ctx) bool {
+	return c.Tier == "thorough" && c.Prog.Config.GOOS == "linux" && c.Prog.Config.Tags != ""
 }
 
 // checkC10Operands: rules C10.operands and C10.bigint.
@@ -389,7 +398,7 @@ func checkC10Shifts(c *Ctx, lsh, rsh *ssa.Function) {
 		for _, b := range quickBytes {
 			operands = append(operands, []int64{b})
 		}
-		if c.Tier == "thorough" {
+		if c10Exhaustive(c) {
 			for v := 0; v < 65536; v++ {
 				operands = append(operands, []int64{int64(v & 0xff), int64(v >> 8)})
 			}
@@ -433,7 +442,7 @@ func checkC10Shifts(c *Ctx, lsh, rsh *ssa.Function) {
 			if w == 2 && len(cs.bytes) == 2 {
 				if boundary[x[0]] && boundary[x[1]] {
 					shifts = []int64{0, 1, 4, 7, 8, 9, 15, 16, 17, 1 << 20}
-					if c.Tier == "thorough" {
+					if c10Exhaustive(c) {
 						shifts = []int64{0, 1, 2, 3, 4, 5, 6, 7, 8, 9, 12, 15, 16, 17, 1 << 20}
 					}
 				} else {
